@@ -36,7 +36,7 @@ DATA_CARRIERS = [
     "ma_nan", "series", "series_idx", "series_obj", "dask",
 ]
 # masked array whose masked cells hold finite junk (finding F-11, fixed), list holding np.ma.masked
-DATA_CARRIERS_EXTRA = ["ma_junk", "list_masked"]
+DATA_CARRIERS_EXTRA = ["ma_junk", "list_masked", "ma_mixed"]
 TIME_CARRIERS = [
     "dt64ns", "dt64s", "dt64ms", "pydt", "stamps", "dtindex", "series_naive", "series_utc",
     "dtindex_utc", "epoch_int", "epoch_float",
@@ -102,6 +102,12 @@ def mk_data(vals, carrier="nd_f8"):
     if carrier == "ma_junk":
         data = np.array([7.25 if v is None else float(v) for v in vals], dtype=np.float64)
         return np.ma.array(data, mask=[v is None for v in vals])
+    if carrier == "ma_mixed":
+        # allocated mask; missing cells alternately masked (finite number underneath) and left as an UNMASKED NaN
+        miss = [i for i, v in enumerate(vals) if v is None]
+        masked = set(miss[::2])
+        data = np.array([(7.25 if i in masked else np.nan) if v is None else float(v) for i, v in enumerate(vals)], dtype=np.float64)
+        return np.ma.array(data, mask=[i in masked for i in range(len(vals))])
     if carrier == "list_masked":
         return [np.ma.masked if v is None else float(v) for v in vals]
     if carrier == "series":
